@@ -35,7 +35,8 @@ def guard_rule(F, G, rep, fn):
     arg_ok = False
     for n in tir.walk(b["tir"]["value"]):
         if n.get("k") == "Call" and declared(n) == GUARD:
-            arg_ok = tir.place(n["args"][0]) == "game.start.slippi.version"
+            gname = next((p.get("name") for p in b["tir"]["params"] if "Game" in (p.get("ty") or "")), "game")
+            arg_ok = tir.LetEnv(b["tir"]["value"]).place(n["args"][0], peel=False) == gname + ".start.slippi.version"
     rep.ob("D.guard.arg", arg_ok, fn, "argument", "%s does not pass game.start.slippi.version to the guard" % fn)
 
 
@@ -60,7 +61,12 @@ def version_refusals(F, G, rep):
                 for br in branches:
                     for x in tir.walk(br or {}):
                         if x.get("k") == "Ret":
-                            bad = x
+                            # a refusal is an error exit: `return Err(..)` (or a Result that is not visibly Ok); an early
+                            # `return value` of a guard clause is an ordinary result
+                            rv = strip(x.get("e") or {})
+                            is_ok = rv.get("k") == "Call" and (declared(rv) or "").endswith("::Ok")
+                            if (rv.get("ty") or "").startswith("std::result::Result") and not is_ok:
+                                bad = x
                         if x.get("k") == "Call" and (declared(x) or "").endswith("::Err") and (x.get("dk") or "").startswith("Ctor"):
                             bad = x
                         if x.get("k") == "Call" and (declared(x) or "").startswith("core::panicking"):
